@@ -297,16 +297,15 @@ package factory
 //@ assume before call Inject: [substitutes-stay-assignable] forall(k, int, implies(0 <= k && k < len(injects) && !IsSelfOf(node, injects[k]), RAssignable(RTypeOf(injects[k].Value), TargetType(node))))
 // completeness of population: every component property of the Meta is looked at, and every one that has candidates
 // at that moment is handed to Property.Inject (no point is skipped, the loop does not stop early)
-// (len #4 is the call len(dependencies): calls are numbered by source position, the two position-less len calls that the
-// compiler emits for the range loops come first, then len(properties))
-//@ ghost before call len #4: InjVisited = store(InjVisited, name, store(InjVisited[name], _idx, true))
-//@ ghost before call len #4: InjNeeded = store(InjNeeded, name, store(InjNeeded[name], _idx, len(node.Injects) != 0))
+// (the hook is keyed to the call len(dependencies), whatever other len calls the function contains)
+//@ ghost before call len(dependencies): InjVisited = store(InjVisited, name, store(InjVisited[name], _idx, true))
+//@ ghost before call len(dependencies): InjNeeded = store(InjNeeded, name, store(InjNeeded[name], _idx, len(node.Injects) != 0))
 //@ ghost local visitedSnap map[int]bool
 //@ ghost local neededSnap map[int]bool
 //@ ghost local doneSnap map[int]bool
-//@ ghost before call len #4: visitedSnap = InjVisited[name]
-//@ ghost before call len #4: neededSnap = InjNeeded[name]
-//@ ghost before call len #4: doneSnap = InjDone[name]
+//@ ghost before call len(dependencies): visitedSnap = InjVisited[name]
+//@ ghost before call len(dependencies): neededSnap = InjNeeded[name]
+//@ ghost before call len(dependencies): doneSnap = InjDone[name]
 //@ ghost after call Inject: InjDone = store(InjDone, name, store(InjDone[name], _idx, true))
 //@ loop 2 invariant [own-trace-stable] InjVisited[name] == visitedSnap && InjNeeded[name] == neededSnap && InjDone[name] == doneSnap && InjKept(Reg(f), name)
 //@ ensures [every-point-populated] implies(result == nil, forall(k, int, implies(0 <= k && k < len(PropsOf(meta, component_definition.PropertyTypeComponent)), InjVisited[name][k] && implies(InjNeeded[name][k], InjDone[name][k])), InjVisited[name][k]))
@@ -518,8 +517,8 @@ package factory
 //@ assigns f.registeredComponents, f.definitionRegistryPostProcessors, any(f.postProcessorRegistrationDelegate.hasInstantiationAwareComponentPostProcessor), any(f.postProcessorRegistrationDelegate.hasDestructionAwareComponentPostProcessor), any(f.postProcessorRegistrationDelegate.rawComponentPostProcessors), any(f.postProcessorRegistrationDelegate.componentPostProcessors), PrepAt, PrepDrp, PrepRaw, PrepFpp, SortedProcs, ProcessorWiring(), Failed, ScanPhaseFrame(), AnyRegFrame(), CreationFrame()
 //@ ensures [processors-ready] implies(result == nil, ProcsOK(f.postProcessorRegistrationDelegate))
 //@ ghost after call GetSingleton$: PrepAt = store(PrepAt, _idx, _result0)
-//@ ghost before call append #1: PrepDrp = store(PrepDrp, _idx, len(f.definitionRegistryPostProcessors))
-//@ ghost before call append #2: PrepFpp = store(PrepFpp, _idx, len(factoryPostProcessors))
+//@ ghost before call append(f.definitionRegistryPostProcessors): PrepDrp = store(PrepDrp, _idx, len(f.definitionRegistryPostProcessors))
+//@ ghost before call append(factoryPostProcessors): PrepFpp = store(PrepFpp, _idx, len(factoryPostProcessors))
 //@ ghost before call registerBeanPostProcessors: PrepRaw = store(PrepRaw, _idx, len(f.postProcessorRegistrationDelegate.rawComponentPostProcessors))
 //@ loop 1 invariant [definition-processors-collected] forall(k, int, implies(0 <= k && k < _done && implements(PrepAt[k], container.DefinitionRegistryPostProcessor), 0 <= PrepDrp[k] && PrepDrp[k] < len(f.definitionRegistryPostProcessors) && toany(f.definitionRegistryPostProcessors[PrepDrp[k]]) == PrepAt[k]), PrepDrp[k])
 //@ loop 1 invariant [component-processors-registered] forall(k, int, implies(0 <= k && k < _done && implements(PrepAt[k], container.ComponentPostProcessor), 0 <= PrepRaw[k] && PrepRaw[k] < len(f.postProcessorRegistrationDelegate.rawComponentPostProcessors) && toany(f.postProcessorRegistrationDelegate.rawComponentPostProcessors[PrepRaw[k]]) == PrepAt[k]), PrepRaw[k])
